@@ -14,7 +14,8 @@
   Everything is stated for *all* states, operations and histories — no bound on document size or
   history length.
 -/
-import Gedcom.Lemmas.Cache
+import Gedcom.Lemmas.CacheIso
+import Gedcom.Props.C01
 namespace Gedcom.C13
 open Gedcom Gedcom.Cache
 
@@ -74,6 +75,36 @@ theorem views_fresh_after (heap : List NodeRec) (roots : List Id)
     let s := (run Cache.flags (initOf heap roots) ops).1
     v.ok (abs s) = true → (step Cache.flags s (.read v)).2 = specView (abs s) v :=
   fun hok => views_fresh _ v (coherent_run ops _ (coherent_init heap roots hr hk)) hok
+
+/-- **The views of a long-lived document are those of a fresh decode of its text** (C01 link).
+    `toForest (abs s)` is the forest `Document.String()` writes; by C01 (`decode_encode`) decoding
+    the encoder's text gives exactly that forest back, under every decoder option; `ofForest` is the
+    state `NewDocumentFromString` builds from it.  Every view read on the live document `s` — after
+    any history, with whatever is in its caches — is, node for node and in order, the view read on
+    that freshly decoded document.
+
+    Two structural facts about `ofForest (toForest (abs s))` are hypotheses, not yet theorems:
+    `hwf` (preorder allocation yields a well-formed heap) and `hiso` (it is the attached part of
+    `abs s`, renumbered by `φ`).  Both hold exactly when the attached part of `abs s` is a tree
+    (no node under two parents, no cycle) — which the edit API preserves for the operations the
+    harness generates, but which is not carried as an invariant through `step` here (it needs
+    duplicate-free arguments of `SetNodes` in `Op.ok`, a tree invariant for every primitive edit,
+    and an induction over `allocNode`/`toNode`).  The conclusion itself is checked at run time on
+    both sides: the driver's `rebuild` request evaluates it on the model for the state at the end
+    of every history, and the oracle (S) evaluates it on the real decoder after every step. -/
+theorem views_fresh_decode (s : St) (h : Inv s) (v : View) (hok : v.ok (abs s) = true)
+    (hsub : ∀ n, v.subject = some n → Att (abs s) n)
+    (bom : Bool) (o : Dec.Opts) (hl : C01.Legal ⟨bom, toForest (abs s)⟩)
+    (φ : Id → Id)
+    (hwf : AWF (abs (ofForest (toForest (abs s)))))
+    (hiso : Iso φ (abs s) (abs (ofForest (toForest (abs s))))) :
+    ∃ d : Dec.Doc, Dec.decode o (Dec.encode ⟨bom, toForest (abs s)⟩) = .ok d ∧
+      ((step Cache.flags s (.read v)).2).map φ =
+        (step Cache.flags (ofForest d.nodes) (.read (v.map φ))).2 := by
+  refine ⟨⟨bom, toForest (abs s)⟩, C01.decode_encode _ hl o, ?_⟩
+  have hinv : Inv (ofForest (toForest (abs s))) := init_inv _ _ hwf
+  rw [views_fresh s v h hok, views_fresh _ (v.map φ) hinv (ok_iso hiso v hsub hok),
+      specView_iso hiso v hsub]
 
 /-- A read leaves the document (hence its GEDCOM text) unchanged … -/
 theorem reads_keep_document (s : St) (op : Op) (h : Inv s) (hr : op.isRead = true) :
@@ -181,6 +212,20 @@ example : Inv demoInit := coherent_init _ _ (by decide) (by
   | 0 => simp [Abs.kids, demoHeap] at hc; subst hc; decide
   | 1 => simp [Abs.kids, demoHeap] at hc
   | n + 2 => simp [Abs.kids, demoHeap] at hc)
+
+/-- the hypotheses of `views_fresh_decode` are satisfiable: the demo document is what its own
+    forest decodes to, with `φ = id` -/
+theorem demo_awf : AWF (abs demoInit) := ⟨by decide, by
+  intro n c hc
+  match n with
+  | 0 => simp [Abs.kids, demoHeap, demoInit, initOf, abs] at hc; subst hc; decide
+  | 1 => simp [Abs.kids, demoHeap, demoInit, initOf, abs] at hc
+  | n + 2 => simp [Abs.kids, demoHeap, demoInit, initOf, abs] at hc⟩
+
+example : abs (ofForest (toForest (abs demoInit))) = abs demoInit := by rfl
+example : Iso id (abs demoInit) (abs (ofForest (toForest (abs demoInit)))) := by
+  have e : abs (ofForest (toForest (abs demoInit))) = abs demoInit := by rfl
+  rw [e]; exact Iso.refl demo_awf
 
 example : (View.nodesWithTag 0 tNAME).ok (abs demoInit) = true := by decide
 example : (Op.addChild 0 1).ok (abs (initOf childHeap [0, 1])) = true := by decide
